@@ -8,6 +8,17 @@ PY = '/venv/bin/python'
 
 # property -> (category, level text, level note, technique, design ref)
 CLAIMED = {
+    'C10': ('other',
+            'Static rules over the lazily parsed lump views of class BSP: (B1) CFG must-pass-through - every lump that a view blanks when parsed '
+            'is re-assigned by its writer on every normally returning path (format-variant guards shared with the reader excepted); (B2) dependency '
+            'check - a writer (and the BSP helpers it calls) reads another view only if that view is rebuilt later in LUMP_REBUILD_ORDER and never its '
+            'own view; (B3) completeness of the order tables and reader/writer presence; (B4) role-level agreement of the lump header record in both '
+            'field orders and of the game-lump directory record; (B5) symmetry of compression flag, stored length and decompression; (B6) cache-'
+            'before-blank in ParsedLump.__get__. These decide the 2^21 access-subset question structurally; byte identity is not claimed.',
+            'Trusted: CPython ast, engine/cfg.py, the role classifier for header fields in rules/c10.py. LZMA determinism and content equality '
+            '(C11) are outside.',
+            'static: CFG must-pass-through + view/lump dependency order check + header role agreement',
+            'DESIGN.md section 3, C10'),
     'C12': ('other',
             'Static rules on AtomicWriter and BSP.save: the destination path is only ever the argument of the final replace() (never opened, '
             'truncated or unlinked) so, given atomic rename, it holds old or new contents at every kill point; on the statement CFG of __exit__ with '
